@@ -196,8 +196,12 @@ func c05(c *core.Ctx, r *core.Report) {
 			if f.stop != nil && t == f.stop {
 				stopCall = call
 			}
-			if f.loop != nil && t == f.loop.Parent() {
-				startCall = call
+			if f.loop != nil {
+				for _, g := range an.GoTargetOf(c.AllFuncs, f.loop) {
+					if g.Parent() == t {
+						startCall = call
+					}
+				}
 			}
 		}
 		if startCall == nil {
